@@ -252,6 +252,28 @@ pub fn run(args: &Args) {
         let bytes = rawhdr::assemble(&lead_bytes("crc"), &encode_wellformed(62, &[]), &encode_wellformed(63, &h), &arch, 0);
         run_cases(&mut t, "big-crc-entry", &[hexcase(&bytes, "070702 entry, 16.9 MB of 0xff".into())], false);
     }
+    // (c3) a small index whose entries all refer to the same large stretch of the data section (each entry is in range on its
+    // own; together they refer to many times what the file holds)
+    {
+        let mut cs = vec![];
+        for (n, d, typ, width) in [(2000usize, 100_000usize, 7u32, 1usize), (600, 60_000, 1, 1), (600, 60_000, 2, 1), (900, 80_000, 4, 4), (400, 64_000, 5, 8), (700, 70_000, 3, 2)] {
+            for in_sig in [false, true] {
+                let entries: Vec<[i64; 4]> = (0..n).map(|i| [20_000 + i as i64, typ as i64, 0, (d / width) as i64]).collect();
+                let big = rawhdr::encode_raw([0x8e, 0xad, 0xe8, 0x01], [0; 4], n as u32, d as u32, &entries, &vec![0x41u8; d]);
+                let small = encode_wellformed(if in_sig { 63 } else { 62 }, &[]);
+                let bytes = if in_sig { rawhdr::assemble(&lead_bytes("overlap"), &big, &small, b"", 0) } else { rawhdr::assemble(&lead_bytes("overlap"), &small, &big, b"", 0) };
+                cs.push(hexcase(&bytes, format!("{n} entries of type {typ} over the same {d} bytes of the {} header", if in_sig { "signature" } else { "main" })));
+            }
+        }
+        // ... and string arrays: every entry counts the same run of one-byte strings
+        let d = 60_000usize;
+        let store: Vec<u8> = (0..d).map(|i| if i % 2 == 0 { b'a' } else { 0 }).collect();
+        let entries: Vec<[i64; 4]> = (0..500).map(|i| [20_000 + i as i64, 8, 0, (d / 2) as i64]).collect();
+        let big = rawhdr::encode_raw([0x8e, 0xad, 0xe8, 0x01], [0; 4], 500, d as u32, &entries, &store);
+        let bytes = rawhdr::assemble(&lead_bytes("overlap"), &encode_wellformed(62, &[]), &big, b"", 0);
+        cs.push(hexcase(&bytes, "500 string arrays over the same 30000 one-byte strings".into()));
+        run_cases(&mut t, "overlap", &cs, false);
+    }
     // (d) hostile uncompressed cpio payloads
     let mut cs = vec![];
     let good = c07::newc_entry("./opt/a", 0o100644, b"hello", 1);
